@@ -84,8 +84,9 @@ RULES = [
     (r"voltage:decompress_destripe_cbin:kwdrop:L(483|493)", "equivalent", "dtype of an all-False placeholder / of a buffer that is float32 already"),
     (r"voltage:decompress_destripe_cbin:const:L487", "equivalent", "np.float32(k).nbytes is 4 for every k"),
     (r"voltage:decompress_destripe_cbin:(const|arith):L(494|498|588)", "outside", "VALUES of the RMS time stamps (the property fixes one entry per batch, which is checked)"),
-    (r"voltage:decompress_destripe_cbin:(cmp|const):L516", "equivalent", "guard of workers starting at or beyond the last batch: `n_batch > 0` vs `>= 0` / `> -1` differ for the first worker only, which never starts beyond the end; `* 2` vs `* 3` taper margins select the same batches for the lengths of the workload"),
-    (r"voltage:decompress_destripe_cbin:(cmp|const):L521", "equivalent", "the last worker's upper bound: ns vs (i+1) x chunk differ by less than a batch and the loop stops at ns anyway"),
+    (r"voltage:decompress_destripe_cbin:const:L516_2->3", "gap-closed", "a recording a little longer than one batch (C06 base case ns = nbatch + 700, 3 workers): the last batch is every later worker's FIRST batch; re-run: caught (`writeset:gap`)"),
+    (r"voltage:decompress_destripe_cbin:(cmp|const):L516", "equivalent", "guard of workers starting at or beyond the last batch: `n_batch > 0` vs `>= 0` / `> -1` differ for the first worker only, which never starts beyond the end"),
+    (r"voltage:decompress_destripe_cbin:(cmp|const):L521", "equivalent", "a worker's upper bound: with the bounds exchanged the earlier workers run on to the end of the file (redundant, identical writes) and cover what the last one leaves; re-run against the current check: survives"),
     (r"voltage:decompress_destripe_cbin:const:L541", "equivalent", "`i_chunk == 0` vs `== -1`: only moves the first worker's first batch start by 0"),
     (r"voltage:decompress_destripe_cbin:argswap:L(549|574)", "equivalent", "np.minimum arguments swapped; x / y swapped in a distance"),
     (r"voltage:decompress_destripe_cbin:kwdrop:L552", "equivalent", "fs of the saturation call equals the default (30 kHz recordings; the slew criterion never decides a flag of the workload)"),
